@@ -131,7 +131,9 @@ def make_recorders(case, plan, log, ids, repl_objs):
             ns[name] = hook(name, True)
         elif name.startswith("leave_"):
             ns[name] = hook(name, False)
-    Disp = type("Disp", (V.DispatchingVisitor,), ns)
+    # gamma: the dispatching recorder is a SUBCLASS of an application visitor class that has already been used on its own
+    # (class hierarchies of visitors are the documented way to share behaviour): the subclass' hooks are the ones that count
+    Disp = type("Disp", (_disp_base(ns),), ns)
     m = case["m"]
     inst = {v: (Disp if (case["disp"] and v % 2 == 1) else Plain)(v) for v in set(case["vis"])}
     if m == 1:
@@ -148,6 +150,26 @@ def make_recorders(case, plan, log, ids, repl_objs):
                 log.append(["leave", ids.get(id(node), -1), lo])
         inst[lo] = LeaveOnly()
     return V.ChainedVisitor(*[inst[v] for v in case["vis"]]), lo
+
+
+_WARMUP = []
+
+
+def _disp_base(ns):
+    """One application base class per process, used ON ITS OWN once before any subclass exists."""
+    if not _WARMUP:
+        from py_gql.lang import parse
+        from py_gql.lang import visitor as V
+        base_ns = {}
+        for name in ns:
+            if name.startswith("enter_"):
+                base_ns[name] = lambda self, node: node
+            elif name.startswith("leave_"):
+                base_ns[name] = lambda self, node: None
+        base = type("DispBase", (V.DispatchingVisitor,), base_ns)
+        base().visit(parse("query Q($v: Int = 1) @d { a(x: [1, {k: $v}]) { ...F ... on T { b } } }\nfragment F on T { c }", no_location=True))
+        _WARMUP.append(base)
+    return _WARMUP[0]
 
 
 def _snake(name):
